@@ -115,6 +115,19 @@ fn variants(s: &Sprite, plan: &Plan, enc: &Encoded, t: &mut Tape) -> Vec<(&'stat
             v.push(("tileset-not-embedded", format!("tileset#{} flags={}", i, flags), encode(&s2, plan).bytes));
         }
     }
+    // an additional, unreferenced tileset that lives in an external file only, declaring 0, 1 or 5 tiles
+    {
+        let pieces = super::robust::to_pieces(enc);
+        for count in [0u32, 1, 5] {
+            let ext = Tileset { id: 9000 + count, flags: 1, count, tw: 4, th: 4, base_index: 1, name: "external".into(), ext: (1, 1), pixels: vec![] };
+            let c = finish_chunk(tileset_chunk(&ext, 6, &mut None), 0, &mut Rng(1)).bytes;
+            for pos in [0usize, pieces.frames[0].1.len()] {
+                let mut p = pieces.clone();
+                p.frames[0].1.insert(pos, c.clone());
+                v.push(("tileset-not-embedded", format!("extra external-only tileset with {} tiles at chunk position {}", count, pos), super::robust::assemble(&p, true)));
+            }
+        }
+    }
     // a second Tileset chunk that re-defines an existing id as external-only (no embedded pixels), right after the
     // original and at the end of the first frame
     if !s.tilesets.is_empty() {
